@@ -1,0 +1,73 @@
+// SPDX-FileCopyrightText: 2026 The Pion community <https://pion.ly>
+// SPDX-License-Identifier: MIT
+
+//go:build verif
+
+package h265reader
+
+// Contracts for the contract-based verification in /verif (build tag verif); comments only.
+
+// Assumed contract on io.Reader: Read returns a count within the buffer (the io.Reader
+// contract) and touches only the buffer it is given.
+//@ func (io.Reader).Read
+//@ trusted
+//@ ghost rdpos += n
+//@ ensures 0 <= n && n <= len(p)
+//@ modifies elems(p)
+
+//@ field H265Reader.stream props C34 C37 writers NewReader
+//@ field H265Reader.includeSEI props C34 C37 writers NewReader, WithIncludeSEI$1
+//@ field H265Reader.tmpReadBuf props C34 C37 writers NewReader
+//@ field H265Reader.nalBuffer props C34 C37 writers NewReader, (*H265Reader).NextNAL, (*H265Reader).processByte, (*H265Reader).bitStreamStartsWithH265Prefix
+//@ field H265Reader.readBuffer props C34 C37 writers NewReader, (*H265Reader).read
+//@ field H265Reader.countOfConsecutiveZeroBytes props C34 C37 writers (*H265Reader).processByte
+//@ field H265Reader.nalPrefixParsed props C34 C37 writers NewReader, (*H265Reader).NextNAL
+
+//@ func (*H265Reader).read
+//@ props C34 C37
+//@ requires reader != nil && reader.stream != nil && numToRead >= 0
+//@ ensures e == nil ==> len(data) <= numToRead
+//@ ensures e != nil ==> data == nil
+//@ loop 0 invariant reader.stream != nil
+
+//@ func (*H265Reader).bitStreamStartsWithH265Prefix
+//@ props C34 C37
+//@ requires reader != nil && reader.stream != nil
+
+//@ func (*H265Reader).processByte
+//@ props C34 C37
+//@ requires reader != nil
+//@ ensures nalFound ==> len(reader.nalBuffer) >= 1
+//@ ensures reader.includeSEI == old(reader.includeSEI) && reader.stream == old(reader.stream)
+//@ modifies reader.nalBuffer, reader.countOfConsecutiveZeroBytes
+
+//@ func newNal
+//@ props C34 C37
+//@ ensures result != nil && fresh(result) && len(result.Data) == len(data) && sameptr(result.Data, data)
+//@ modifies nothing
+
+//@ func (*H265Reader).shouldSkipNAL
+//@ props C34 C37
+//@ requires reader != nil
+//@ ensures result == (!reader.includeSEI && (naluType == NalUnitTypePrefixSei || naluType == NalUnitTypeSuffixSei))
+//@ modifies nothing
+
+//@ func (*NAL).parseHeader
+//@ props C34 C37
+//@ requires h != nil
+//@ ensures len(h.Data) >= 2 ==> h.NalUnitType == NalUnitType((h.Data[0] & 0x7E) >> 1) && h.ForbiddenZeroBit == (h.Data[0] & 0x80 != 0)
+//@ ensures len(h.Data) >= 2 ==> h.LayerID == ((h.Data[0] & 0x01) << 5) | ((h.Data[1] & 0xF8) >> 3) && h.TemporalIDPlus1 == h.Data[1] & 0x07
+//@ ensures len(h.Data) == old(len(h.Data)) && sameptr(h.Data, old(h.Data))
+//@ modifies h.ForbiddenZeroBit, h.NalUnitType, h.LayerID, h.TemporalIDPlus1
+
+// No panic on any stream; a returned unit has at least one byte, its parsed header
+// fields are those of its two header bytes, and with SEI inclusion off a prefix or
+// suffix SEI unit is never returned.
+//@ func (*H265Reader).NextNAL
+//@ props C34 C37
+//@ requires reader != nil && reader.stream != nil
+//@ observe old(reader.includeSEI)
+//@ ensures err == nil ==> ret0 != nil && len(ret0.Data) >= 1
+//@ ensures err == nil && len(ret0.Data) >= 2 ==> ret0.NalUnitType == NalUnitType((ret0.Data[0] & 0x7E) >> 1)
+//@ ensures err == nil && !old(reader.includeSEI) ==> NalUnitType((ret0.Data[0] & 0x7E) >> 1) != NalUnitTypePrefixSei && NalUnitType((ret0.Data[0] & 0x7E) >> 1) != NalUnitTypeSuffixSei
+//@ loop 0 invariant reader.stream != nil && reader.includeSEI == old(reader.includeSEI)
